@@ -274,7 +274,9 @@ def geom_in_box(rng, typ: str, t0: float, t1: float, f0: float, f1: float) -> di
             # first and last vertex at the same instant: a contour that comes back to where it started (neither end is
             # "later", so there is nothing to normalise)
             fm = f0 + rng.random() * (f1 - f0)
-            return {"type": typ, "coordinates": rng.choice([[[t0, f0], [t1, fm], [t0, f1]], [[t0, f0], [t1, f0], [t1, f1], [t0, f1]], [[t0, f1], [t1, fm], [t0, f0]]])}
+            return {"type": typ, "coordinates": rng.choice([[[t0, f0], [t1, fm], [t0, f1]], [[t0, f0], [t1, f0], [t1, f1], [t0, f1]], [[t0, f1], [t1, fm], [t0, f0]],
+                                                            # ... or exactly back at its first vertex: a closed loop is still a line string
+                                                            [[t0, f0], [t1, f0], [t1, f1], [t0, f0]], [[t0, fm], [t1, f0], [t1, f1], [t0, f1], [t0, fm]]])}
         return {"type": typ, "coordinates": line_in_box(rng, t0, t1, f0, f1)}
     if typ == "MultiLineString":
         n = rng.randint(1, 4)
